@@ -167,7 +167,7 @@ impl Engine for MVRegEng {
 }
 
 impl crate::drive::Driveable for MVRegEng {
-    fn random_cmd(_s: &S, rng: &mut rand::rngs::StdRng, d: &Dims) -> Option<Value> {
+    fn random_cmd(_s: &S, _r: usize, rng: &mut rand::rngs::StdRng, d: &Dims) -> Option<Value> {
         use rand::Rng;
         Some(json!({"c": "write", "v": rng.gen_range(1..=d.m.max(1)) as u64}))
     }
